@@ -39,6 +39,17 @@ def helloDoc (raw : String) (attrs : List AttrItem) (cs : List HChild) : List Ev
   .start { ns := .bound BASE, lname := "hello", raw := raw, attrs := attrs, span := none } ::
     cs.flatMap HChild.render ++ [.end raw, .eof]
 
+/-- the same message with `pre` comments in front of `<hello>` and `post` comments between
+`</hello>` and EOF -/
+def helloDocMisc (pre post : Nat) (raw : String) (attrs : List AttrItem) (cs : List HChild) : List Ev :=
+  List.replicate pre .comment ++
+    (.start { ns := .bound BASE, lname := "hello", raw := raw, attrs := attrs, span := none } ::
+      cs.flatMap HChild.render ++ .end raw :: List.replicate post .comment ++ [.eof])
+
+theorem helloDocMisc_zero (raw : String) (attrs : List AttrItem) (cs : List HChild) :
+    helloDocMisc 0 0 raw attrs cs = helloDoc raw attrs cs := by
+  simp [helloDocMisc, helloDoc]
+
 /-- capability list semantics: parse each leaf in order, fail on the first invalid URI -/
 def capsAbs (c : RCfg) (o : UriOracle) (acc : List Capability) : List CapLeaf → Except Err (List Capability)
   | [] => .ok acc
